@@ -24,7 +24,7 @@ func (e *Engine) prelude() string {
 	sb.WriteString("(declare-fun md5 (Bytes) (_ BitVec 128))\n(declare-fun crc32 (Bytes) (_ BitVec 32))\n(declare-fun b_len (Bytes) Int)\n")
 	sb.WriteString("(declare-fun otype (Int) Int)\n")
 	sb.WriteString("(declare-const strlit_empty Str)\n(assert (= (s_len strlit_empty) 0))\n")
-	sb.WriteString("(define-fun maxSliceCap () Int 281474976710656)\n(define-fun maxAlloc () Int 281474976710656)\n")
+	sb.WriteString("(define-fun maxSliceCap () Int 70368744177664)\n(define-fun maxAlloc () Int 281474976710656)\n")
 	sb.WriteString("(define-fun tdiv ((a Int) (b Int)) Int (ite (>= a 0) (ite (> b 0) (div a b) (- (div a (- b)))) (ite (> b 0) (- (div (- a) b)) (div (- a) (- b)))))\n")
 	sb.WriteString("(define-fun trem ((a Int) (b Int)) Int (- a (* b (tdiv a b))))\n")
 	// string literals
@@ -176,7 +176,12 @@ type solveResult struct {
 	out    string
 }
 
+// procSem bounds the number of solver processes to the number of cores.
+var procSem = make(chan struct{}, 16)
+
 func runSolver(sp solverSpec, file string, timeoutSec int) solveResult {
+	procSem <- struct{}{}
+	defer func() { <-procSem }()
 	ctx, cancel := context.WithTimeout(context.Background(), time.Duration(timeoutSec+2)*time.Second)
 	defer cancel()
 	argv := sp.argv(file, timeoutSec)
@@ -188,7 +193,15 @@ func runSolver(sp solverSpec, file string, timeoutSec int) solveResult {
 	_ = cmd.Run()
 	secs := time.Since(t0).Seconds()
 	s := out.String()
-	first := strings.TrimSpace(strings.SplitN(s, "\n", 2)[0])
+	first := ""
+	for _, ln := range strings.Split(s, "\n") {
+		ln = strings.TrimSpace(ln)
+		if ln == "" || strings.HasPrefix(ln, "WARNING") || strings.HasPrefix(ln, "(warning") {
+			continue
+		}
+		first = ln
+		break
+	}
 	st := "unknown"
 	switch {
 	case first == "unsat":
@@ -304,4 +317,44 @@ func (e *Engine) solveAll(obs []*Oblig, dir string, t1, t2 int, workers int) {
 	}
 	close(ch)
 	wg.Wait()
+	// Last stage: obligations still undecided are retried a few at a time with a
+	// long timeout, so that machine load during the parallel phase cannot turn
+	// a provable obligation into an alarm.
+	var retry []*Oblig
+	for _, o := range obs {
+		if !o.preSolved && !o.NoReach && o.Status != "proved" && o.Status != "refuted" && o.File != "" {
+			retry = append(retry, o)
+		}
+	}
+	if len(retry) == 0 || len(retry) > 8 {
+		// many failures at once mean the code changed shape, not that the machine was busy
+		return
+	}
+	long := 4 * t2
+	if long < 60 {
+		long = 60
+	}
+	sem := make(chan struct{}, 4)
+	var wg2 sync.WaitGroup
+	for _, o := range retry {
+		o := o
+		wg2.Add(1)
+		sem <- struct{}{}
+		go func() {
+			defer wg2.Done()
+			defer func() { <-sem }()
+			rs := make(chan solveResult, 2)
+			go func() { rs <- runSolver(solvers[0], o.File, long) }()
+			go func() { rs <- runSolver(solvers[1], o.File, long) }()
+			for i := 0; i < 2; i++ {
+				r := <-rs
+				if r.status == "proved" || r.status == "refuted" {
+					o.Status, o.Solver, o.Model = r.status, r.solver+"(retry)", r.out
+					o.Secs += r.secs
+					return
+				}
+			}
+		}()
+	}
+	wg2.Wait()
 }
